@@ -28,10 +28,12 @@ BOUND = {
     'quick': 'A: 756 one-atom fragments; B: 5 atoms x 3144 constraints; B-pairs: '
              '5 x 40^2; C: 12^2 atom specs x 10 bond kinds (+1 constraint from '
              '10 on either atom); D: all 3-atom chains/branches/triangles over 4 '
-             'specs x 4 kinds; E: 48 molecule prefixes x 2; F: every fragment of '
+             'specs x 4 kinds; D2: the same 3-atom topologies over the constraint-carrying '
+             'kinds {ring, nonring, strong, partial}; E: 48 molecule prefixes x 2; F: every fragment of '
              'every shipped scheme; G: 5 layouts x 5 labelings of a 300-fragment '
              'slice; molecules: M(2) C/O/N with radicals + charged + curated '
-             '(full set for A, B, E, F; 45-molecule core for the rest)',
+             '(full set for A, B, E, F; 45-molecule core for the rest), each set '
+             'followed by atom-reversed copies and 7 partly hydrogen-explicit objects',
     'thorough': 'as quick with C x 40 constraints, D + 4-atom chains/stars/'
                 'squares, G on a 4000-fragment slice, molecules M(3) C/O/N with '
                 'radicals (full set) and a 150-molecule core'}
@@ -86,6 +88,24 @@ def molset(which, tier):
             continue
         seen.add(c)
         out.append((s, m, ringref.G(Chem.AddHs(m))))
+    # the same compounds again in another atom order (same canonical SMILES,
+    # different indices), right after the set: anything remembered per
+    # compound instead of per molecule object shows up
+    extra = []
+    for s, m, g in out[:60]:
+        n = m.GetNumAtoms()
+        if n >= 2 and n <= 8:
+            m2 = Chem.RenumberAtoms(m, list(reversed(range(n))))
+            extra.append((s + ' (atoms reversed)', m2, ringref.G(Chem.AddHs(m2))))
+    # molecule objects that already contain SOME of their hydrogens as atoms
+    ps = Chem.SmilesParserParams()
+    ps.removeHs = False
+    for s in ['[2H]CC', '[H]C([H])C', '[H]OC', 'C([H])=C', '[H]C1CC1', '[2H]O',
+              '[H][C]([H])C']:
+        m = Chem.MolFromSmiles(s, ps)
+        if m is not None:
+            extra.append((s + ' (partly explicit H)', m, ringref.G(Chem.AddHs(m))))
+    out = out + extra
     _MOLS[key] = out
     return out
 
@@ -195,6 +215,8 @@ def shards(tier, seed):
     for i in range(16 if tier == 'quick' else 48):
         out.append(('D', i, 16 if tier == 'quick' else 48))
     out.append(('E', 0, 1))
+    for i in range(16):
+        out.append(('D2', i, 16))
     for i in range(8):
         out.append(('F', i, 8))
     for i in range(8 if tier == 'quick' else 32):
@@ -223,6 +245,9 @@ def run_shard(shard, tier):
     elif fam == 'D':
         for f in chunks(F.family_D(tier), i, n):
             run_text(R, 'D', F.render(f), core())
+    elif fam == 'D2':
+        for f in chunks(F.family_D2(), i, n):
+            run_text(R, 'D2', F.render(f), core())
     elif fam == 'E':
         for f in F.family_E():
             run_text(R, 'E', F.render(f), full())
